@@ -208,7 +208,8 @@ func (c *Checker) afterCall(x *callCtx) {
 	c.checkFault(x)    // C17
 	ok := x.res.Status == "ok"
 	if ok {
-		c.checkGas(x) // C06
+		c.checkGas(x)    // C06
+		c.checkCharge(x) // C16
 		x.emits = emittedMessages(c.w, x.call, x.res)
 		c.checkEmittedData(x) // C10 (emitted data parses)
 	}
@@ -310,11 +311,23 @@ func (c *Checker) checkEmittedData(x *callCtx) {
 				}
 				continue
 			}
-			fn, _, err := callParser.ParseData(string(t.Data))
+			fn, args, err := callParser.ParseData(string(t.Data))
 			if err != nil {
 				c.report(x, "C10", "emitted data %q does not parse: %v", t.Data, err)
 			} else if !builtinSet[fn] {
 				c.report(x, "C10", "emitted data %q names %q, not a built-in function", t.Data, fn)
+			} else if IsTransferFn(x.call.Fn) && sh.ok {
+				// the cross-shard message continues the transfer: same function, same destination, and the
+				// attached call of the input is forwarded unchanged
+				ms := shapeOfArgs(fn, t.SenderAddress, oa.Address, args, false)
+				switch {
+				case fn != x.call.Fn || !bytes.Equal(oa.Address, sh.dest):
+					c.report(x, "C10", "emitted message %s to %x does not continue %s to %x", fn, oa.Address, x.call.Fn, sh.dest)
+				case !ms.ok:
+					c.report(x, "C10", "emitted message %q is not a well-formed %s", t.Data, fn)
+				case ms.attached != sh.attached || ms.attFn != sh.attFn || !sameArgs(ms.attArgs, sh.attArgs):
+					c.report(x, "C10", "the attached call (%q,%x) of the input is not the one in the emitted message (%q,%x)", sh.attFn, sh.attArgs, ms.attFn, ms.attArgs)
+				}
 			}
 		}
 	}
@@ -360,7 +373,9 @@ func (c *Checker) bookkeepMessages(x *callCtx) {
 				m.State = MsgDone
 			case x.faultHit():
 			default:
-				c.report(x, "C01", "refund of message %d rejected (%s): the sender is never restored", m.ID, x.res.Status)
+				if !c.msgUndisciplined(m) {
+					c.report(x, "C01", "refund of message %d rejected (%s): the sender is never restored", m.ID, x.res.Status)
+				}
 				m.State = MsgDone
 				for k, v := range m.Carried { // the tokens are lost; keep one finding, not a cascade
 					addTo(c.expected, k, new(big.Int).Neg(v))
@@ -375,6 +390,18 @@ func (c *Checker) bookkeepMessages(x *callCtx) {
 			c.msgs = append(c.msgs, m)
 		}
 	}
+}
+
+// msgUndisciplined: the message carries a token on which single-creator discipline was broken (two
+// creators can mint one nonce with two hashes; then even a refund may meet "another NFT" at home).
+func (c *Checker) msgUndisciplined(m *Msg) bool {
+	sh := shapeOfArgs(m.Fn, m.Caller, m.Dest, m.Args, false)
+	for _, it := range sh.items {
+		if c.undisciplined[string(it.tok)] {
+			return true
+		}
+	}
+	return false
 }
 
 // legitReject decides whether the failed delivery of a transfer message is one the property allows:
@@ -462,12 +489,42 @@ func (c *Checker) learnTokens(x *callCtx) {
 		}
 	case FnHandOver:
 		if x.isSys {
+			// E5: a hand-over is issued to X only when X is THE holder (judged on the pre-state, so that a
+			// library that fails to strip the old holder is not mistaken for broken discipline)
 			roles, _ := DecodeRoles(x.pre.value(call.Rcv, RolePrefix+tok))
-			if !hasRole(roles, RoleNFTCreate) || c.creators(tok) > 1 {
-				c.undisciplined[tok] = true // handed over by an account that does not hold the role
+			if !hasRole(roles, RoleNFTCreate) || c.creatorsBefore(x, tok) > 1 {
+				c.undisciplined[tok] = true
 			}
 		}
 	}
+}
+
+// creatorsBefore counts the create-role holders of tok in the state before the call x (executing
+// shard from the snapshot, the other shards are unchanged) plus the hand-overs in flight before it.
+func (c *Checker) creatorsBefore(x *callCtx, tok string) int {
+	n := 0
+	for s := 0; s < c.w.NumShards(); s++ {
+		if s == x.call.Shard {
+			for _, a := range x.pre {
+				if roles, ok := DecodeRoles(a.storage[RolePrefix+tok]); ok && hasRole(roles, RoleNFTCreate) {
+					n++
+				}
+			}
+			continue
+		}
+		for _, a := range c.w.Accounts(s) {
+			if roles, ok := DecodeRoles(a.Get(RolePrefix + tok)); ok && hasRole(roles, RoleNFTCreate) {
+				n++
+			}
+		}
+	}
+	for _, m := range c.msgs {
+		if m.EmittedAt < x.idx && m.Fn == FnHandOver && len(m.Args) > 0 && string(m.Args[0]) == tok &&
+			(m.State == MsgPending || (x.msg == m)) {
+			n++
+		}
+	}
+	return n
 }
 
 // ---------------------------------------------------------------------------
@@ -489,7 +546,12 @@ func (c *Checker) checkSupply(x *callCtx) {
 		}
 	case FnNFTCreate:
 		if len(a) >= 2 && len(x.res.Out.ReturnData) > 0 {
-			addTo(c.expected, TokenKey(a[0], U64(x.res.Out.ReturnData[0])), Big(a[1]))
+			k := TokenKey(a[0], U64(x.res.Out.ReturnData[0]))
+			addTo(c.expected, k, Big(a[1]))
+			if c.undisciplined[string(a[0])] {
+				// known, accepted: with two creators a create overwrites the creator's own entry at that nonce
+				addTo(c.expected, k, neg(c.cache.decode(x.pre.value(call.Caller, k)).Val()))
+			}
 		}
 	case FnNFTAddQty:
 		if len(a) >= 3 {
@@ -769,6 +831,10 @@ func (c *Checker) checkDestinations(x *callCtx, diffs []diffSlot) {
 
 func (c *Checker) checkNonces(x *callCtx) {
 	call := x.call
+	if call.Fn == FnHandOver {
+		c.checkHandOver(x)
+		return
+	}
 	if call.Fn != FnNFTCreate || len(call.Args) == 0 {
 		return
 	}
@@ -795,6 +861,57 @@ func (c *Checker) checkNonces(x *callCtx) {
 	}
 	if prev := U64(x.pre.value(call.Caller, NoncePrefix+tok)); n != prev+1 {
 		c.report(x, "C07", "returned nonce %d is not the stored counter %d + 1", n, prev)
+	}
+}
+
+// checkHandOver (C07, handover_moves): the current-owner step zeroes the old holder's counter and
+// removes its create role; the new holder (directly when local, through the emitted message when
+// remote) gets the role and exactly the old counter; the delivery installs both.
+func (c *Checker) checkHandOver(x *callCtx) {
+	call := x.call
+	if len(call.Args) != 2 {
+		return
+	}
+	tok := string(call.Args[0])
+	if c.undisciplined[tok] {
+		return // duplicate roles / several creators were installed on purpose
+	}
+	rolesAt := func(addr []byte) []string {
+		r, _ := DecodeRoles(postValue(c.w, call.Shard, addr, RolePrefix+tok))
+		return r
+	}
+	counterAt := func(addr []byte) uint64 { return U64(postValue(c.w, call.Shard, addr, NoncePrefix+tok)) }
+	if !x.isSys {
+		// next-owner side: role and the carried counter are installed
+		if !hasRole(rolesAt(call.Rcv), RoleNFTCreate) || counterAt(call.Rcv) != U64(call.Args[1]) {
+			c.report(x, "C07", "hand-over delivery did not install the create role and counter %d (roles %q, counter %d)", U64(call.Args[1]), rolesAt(call.Rcv), counterAt(call.Rcv))
+		}
+		return
+	}
+	next := call.Args[1]
+	if bytes.Equal(next, call.Rcv) {
+		return // handing over to oneself changes nothing
+	}
+	old := U64(x.pre.value(call.Rcv, NoncePrefix+tok))
+	if hasRole(rolesAt(call.Rcv), RoleNFTCreate) || counterAt(call.Rcv) != 0 {
+		c.report(x, "C07", "after the hand-over the old holder still has the create role or a counter (roles %q, counter %d)", rolesAt(call.Rcv), counterAt(call.Rcv))
+	}
+	if c.w.Present(call.Shard, next) {
+		if !hasRole(rolesAt(next), RoleNFTCreate) || counterAt(next) != old {
+			c.report(x, "C07", "same-shard hand-over: the new holder has roles %q and counter %d, expected the create role and counter %d", rolesAt(next), counterAt(next), old)
+		}
+		return
+	}
+	if int64(c.w.ShardOf(next)) < int64(c.w.NumShards()) {
+		found := false
+		for _, m := range x.emits {
+			if m.Fn == FnHandOver && bytes.Equal(m.Dest, next) && len(m.Args) == 2 && string(m.Args[0]) == tok && U64(m.Args[1]) == old {
+				found = true
+			}
+		}
+		if !found {
+			c.report(x, "C07", "cross-shard hand-over emitted no message carrying token %q and counter %d to %x", tok, old, next)
+		}
 	}
 }
 
@@ -840,11 +957,27 @@ func (c *Checker) checkMetadata(x *callCtx) {
 		if !sh.ok {
 			return
 		}
+		// hash_mismatch_rejected: nothing may be accepted onto a holding of the same nonce with another hash
+		for _, it := range sh.items {
+			if it.nonce == 0 || !c.w.Present(call.Shard, sh.dest) {
+				continue
+			}
+			had := c.cache.decode(x.pre.value(sh.dest, it.key())).Meta()
+			var incoming *esdt.MetaData
+			if it.payload != nil {
+				incoming = it.payload.Meta()
+			} else {
+				incoming = c.cache.decode(x.pre.value(call.Caller, it.key())).Meta()
+			}
+			if had != nil && incoming != nil && !bytes.Equal(had.Hash, incoming.Hash) {
+				c.report(x, "C08", "(%q,%d) with hash %x was accepted onto a holding of the same nonce with hash %x", it.tok, it.nonce, incoming.Hash, had.Hash)
+			}
+		}
 		if !sh.senderForm {
 			// destination side: the stored metadata is the payload's
 			for _, it := range sh.items {
-				if it.payload == nil {
-					continue
+				if it.payload == nil || it.qty.Sign() == 0 {
+					continue // fungible item, or quantity 0 (accepted by the library, stores nothing)
 				}
 				got := c.cache.decode(postValue(c.w, call.Shard, sh.dest, it.key())).Meta()
 				if d := metaDiff(it.payload.Meta(), got); d != "" {
@@ -863,8 +996,8 @@ func (c *Checker) checkMetadata(x *callCtx) {
 			}
 		}
 		for i, it := range sh.items {
-			if it.nonce == 0 {
-				continue
+			if it.nonce == 0 || it.qty.Sign() == 0 {
+				continue // fungible item, or quantity 0 (accepted by the library, moves nothing)
 			}
 			src := c.cache.decode(x.pre.value(call.Caller, it.key())).Meta()
 			if local {
